@@ -33,6 +33,12 @@ def build_args(ctx, lab, p):
             return ws, vs, None, shape
         vs = [ctx.real(f"x{i}", vlo) for i in range(k)]
         return ws, vs, list(zip(ws, vs)), shape
+    if shape == "2d-col-flatvols":
+        # a column of wells as an (n, 1) array with a plain list of n volumes: element-wise pairing (not numpy broadcasting)
+        r1 = min(R, 3)
+        warr = lab.wells[0:r1, 0:1]
+        vs = [ctx.real(f"x{r}", vlo) for r in range(r1)]
+        return warr, vs, [(wid(r, 0), vs[r]) for r in range(r1)], shape
     if shape in ("2d", "2d-scalar", "2d-flatvols"):
         r1, c1 = min(R, 2), min(C, p.get("c2d", 2))
         warr = lab.wells[0:r1, 0:c1]
